@@ -1,5 +1,6 @@
 import NA.Proofs.C05Final
 import NA.Proofs.C05Restore
+import NA.Proofs.C05Parse
 /-!
 # C05 — Linux approve converges for static routes and iptables
 
@@ -102,6 +103,15 @@ theorem iptables_replace_converges_partial (tb : Tables) (st : KState)
       (∀ t cm, getA t tb = some cm → st'.get t = some (expTable t cm)) ∧
       (∀ t, getA t tb = none → st'.get t = st.get t) :=
   restore_target tb st hc
+
+/-- The hypothesis holds for every target the parser accepts (Go maps have distinct keys): for any
+file text, if `parseIPTables` accepts it, loading the printed file replaces the target's tables exactly. -/
+theorem iptables_replace_converges_parsed (lines : List Str) (tb : Tables) (st : KState)
+    (hp : parseIPTables lines = .ok tb) :
+    ∃ st', restore st ((getIPTablesConfig tb).map toRLn) = some st' ∧
+      (∀ t cm, getA t tb = some cm → st'.get t = some (expTable t cm)) ∧
+      (∀ t, getA t tb = none → st'.get t = st.get t) :=
+  restore_target tb st (parseIPTables_wft lines tb hp).2
 
 /-- Hence "the device then holds exactly the target" is false as soon as the device has a table
 that the target does not name: it survives. -/
@@ -224,7 +234,7 @@ def obligations : List Lean.Name := [
   ``linux_routes_converge_partial, ``linux_routes_converge_counterexample,
   ``linux_routes_one_hop_per_dst, ``routes_covered_linux, ``linux_routes_kernel_strict,
   ``iptables_diff_iff_partial, ``iptables_diff_iff_counterexample,
-  ``iptables_replace_converges_partial, ``iptables_replace_converges_counterexample,
+  ``iptables_replace_converges_partial, ``iptables_replace_converges_parsed, ``iptables_replace_converges_counterexample,
   ``normalize_idempotent_partial, ``normalize_idempotent_counterexample,
   ``normalize_sound_partial, ``normalize_sound_counterexample,
   ``kernel_roundtrip_partial, ``kernel_roundtrip_no_diff,
